@@ -238,9 +238,34 @@ CHECKS = {
             'state; identical results for the reversed file, rotations and permutations of row groups.',
             'Trusted: mc/refs/bpsynth.py expected_xsd. Order of declarations and min/maxOccurs are not compared.',
             'DESIGN.md section 5, C20'),
+    'C11': ('enumerator',
+            'bounded exhaustive enumeration of models (association shapes x populations with under/over-populated ends x identifier sets) and of -r/-k command lines, plus BFS over API histories, against independent violation counts',
+            'Five stages, each exhaustive inside its bounds: a composite model with the numbers R1, R11, R12, R4 (prefix traps) '
+            'in every combination of per-component scenarios, every API restriction and every subset of -r {1,11,12,4,99} x -k '
+            'through xtuml.consistency_check.main and through runpy as __main__ (exit status); the bridgepoint command line on '
+            'every subset of six BridgePoint rows with and without -g; identifier sets (14 identifier lists over two attributes, '
+            'three types in three spellings, values from unset / id 0 / v1 / v2); all nine association shapes with referred ids '
+            'and referential values over null / k1 / k2 / dangling / duplicated, loaded with nulls as id 0 and as absent '
+            'columns; BFS to closure over new / relate / unrelate / delete histories from empty and loader-built seeds. '
+            'Compared in every model: check_association_integrity (total and per number, int and R<n> spelling), '
+            'check_uniqueness_constraint (total and per class), is_consistent, check_subtype_integrity, CLI return values and '
+            'exit statuses, against counts computed from the relational reference.',
+            'Trusted: relmodel counts. Where one instance repeats two identifiers either counting rule is accepted; empty strings '
+            'and numeric zeros in identifiers are not generated.',
+            'DESIGN.md section 5, C11'),
+    'C18': ('explorer',
+            'explicit-state BFS over interleavings of input / build / mutation on one loader; differential oracle against fresh loaders and non-interference between live metamodels',
+            'Operations: input of three valid chunks in any order plus one chunk rejected as a whole, build (up to 2 (3) live '
+            'metamodels), and on any built metamodel new, delete, attribute write, relate, unrelate, append / insert / delete '
+            'attribute, define_unique_identifier, define_class; all interleavings to depth 6 (thorough 7), deduplicated by '
+            'canonical state. After every step, for every live metamodel: xtuml.serialize and a snapshot are unchanged by any '
+            'step not addressed to it, both equal a replica built from a fresh loader fed exactly the chunks accepted before '
+            'that build with that metamodels mutations replayed, and every return value / exception class equals the replicas.',
+            'Trusted: the replica construction (fresh loaders). The depth bound is the stated bound; identity sharing between builds is recorded as implementation-only state.',
+            'DESIGN.md section 5, C18'),
 }
 
-NOT_YET = 'check not built yet in this revision (planned, see DESIGN.md section 5); not claimed until it exists'
+NOT_YET = 'not claimed in this revision'
 
 
 def main():
